@@ -125,9 +125,9 @@ class Prop(BaseProp):
             np.random.seed(case["seed"])
             if case["scalar"]:
                 ctx.count("poisson_scalar_interval")
-                st = ctx.call(ps.generate_poisson_spikes, rate, T1, _name="generate_poisson_spikes")
+                st = ctx.call(ps.generate_poisson_spikes, rate, T1, _name="generate_poisson_spikes", _repeat=False)
             else:
-                st = ctx.call(ps.generate_poisson_spikes, rate, [T0, T1], _name="generate_poisson_spikes")
+                st = ctx.call(ps.generate_poisson_spikes, rate, [T0, T1], _name="generate_poisson_spikes", _repeat=False)
             if T0 > 0:
                 ctx.count("poisson_shifted_start")
             if T0 < 0:
